@@ -265,6 +265,16 @@ func ssoRender(c SSOCase, now time.Time) (obs.HTTPReq, *spsim.Signed, error) {
 					xmlb = append(append(append([]byte(nil), xmlb[:loc[1]]...), ins...), xmlb[loc[1]:]...)
 				}
 			}
+		case "unquoted-attr":
+			if loc := reVersionAttr.FindIndex(xmlb); loc != nil {
+				xmlb = append(append(append([]byte(nil), xmlb[:loc[0]]...), []byte("Version=2.0")...), xmlb[loc[1]:]...)
+			} else if loc := reFirstStartTag.FindSubmatchIndex(xmlb); loc != nil {
+				xmlb = append(append(append([]byte(nil), xmlb[:loc[2]]...), []byte(" note=unquoted")...), xmlb[loc[2]:]...)
+			}
+		case "attr-without-value":
+			if loc := reFirstStartTag.FindSubmatchIndex(xmlb); loc != nil {
+				xmlb = append(append(append([]byte(nil), xmlb[:loc[2]]...), []byte(" standalone")...), xmlb[loc[2]:]...)
+			}
 		case "not-xml":
 			xmlb = []byte("this is not xml at all")
 		case "empty-xml":
